@@ -511,7 +511,7 @@ pub struct C13 {
 impl C13 {
     fn judge(&mut self, rec: &GameRecord, g: &GameState, board: &MBoard, gold: bool, pend: Pend, code: Code, s: &mut Sink) {
         let a = code_act(code);
-        let r = guard("preview+apply", || {
+        let r = guard_act("preview+apply", &a, || {
             let pre = g.trapped_animal_for_action(&a).map(|(sq, p, is_gold)| (sq.index(), cell(piece_strength(p), is_gold)));
             let after = decode_board(g.take_action(&a).piece_board());
             (pre, after)
@@ -587,7 +587,7 @@ impl Monitor for C13 {
                 continue;
             }
             let a = code_act(*c);
-            if let Ok(pre) = guard("trapped_animal_for_action", || o.g.trapped_animal_for_action(&a)) {
+            if let Ok(pre) = guard_act("trapped_animal_for_action", &a, || o.g.trapped_animal_for_action(&a)) {
                 self.previews += 1;
                 self.none_for_pass_or_place += 1;
                 if pre.is_some() {
